@@ -130,6 +130,11 @@ def _weights(ck: Checker, prog: Program, cls):
         src = T.tr(lp.iter)
         ret_ok = len(rets) == 1 and isinstance(rets[0].value, ast.Call) and call_name(rets[0].value) in ("array", "asarray") \
             and rets[0].value.args and unparse(rets[0].value.args[0]) == lst_name
+    elif _weights_by_value(prog, m) is not None:
+        src, w_, r_, hv = _weights_by_value(prog, m)
+        val = sp.Function("repeat")(sp.Tuple(w_), r_)
+        TL = Translator(env=dict(T.env))
+        ret_ok = True
     else:
         if len(rets) != 1:
             raise AnalysisError(f"{fq}: expected one return")
@@ -183,6 +188,38 @@ def _weights(ck: Checker, prog: Program, cls):
         ck.ok("C11.R1", fq, "the weights are returned as built", nontrivial=False)
     else:
         ck.violation("C11.R1", fq, "return", "the weight list is not returned as built", loc=m.loc())
+
+
+def _weights_by_value(prog: Program, m):
+    """Loop-free weight vectors, by value: np.repeat(w(e) for e in S, n(e) for e in S) or a chain / concatenation of
+    repeat(w(e), n(e)) / [w(e)]*n(e) over S.  Returns (S, w, n, name used for the element) or None."""
+    from ..pathtable import PathTable, seq_form, ELT
+    fn = lambda e: getattr(getattr(e, "func", None), "__name__", "")   # noqa: E731
+    try:
+        leaves = [l for l in PathTable(prog, m.module, unroll=True).leaves(m.node.body) if l.exit == "return"]
+    except AnalysisError:
+        return None
+    if len(leaves) != 1 or leaves[0].value is None:
+        return None
+    v = seq_form(leaves[0].value)
+    while fn(v) in ("array", "asarray", "list", "fromiter") and v.args:
+        v = v.args[0]
+    hvname = "<hv>"
+    H = sp.Symbol(f"{hvname}.valid_peak_boolean_mask", real=True)
+    back = lambda e: e.xreplace({sp.Symbol("<e>.valid_peak_boolean_mask", real=True): H}).replace(   # noqa: E731
+        lambda x: fn(x) == "attr_valid_peak_boolean_mask" and x.args[0] == ELT, lambda x: H)
+    if fn(v) == "repeat" and len(v.args) == 2 and fn(v.args[0]) == "SEQ" and fn(v.args[1]) == "SEQ" and v.args[0].args[1] == v.args[1].args[1]:
+        return v.args[0].args[1], back(v.args[0].args[0]), back(v.args[1].args[0]), hvname
+    if fn(v) in ("from_iterable", "chain", "concatenate", "hstack", "_flatten_list") and len(v.args) >= 1:
+        inner = v.args[-1] if fn(v) == "from_iterable" else v.args[0]
+        if fn(inner) == "splat":
+            inner = inner.args[0]
+        if fn(inner) == "SEQ":
+            body = inner.args[0]
+            if fn(body) == "repeat" and len(body.args) == 2:
+                w_ = body.args[0][0] if isinstance(body.args[0], sp.Tuple) and len(body.args[0]) == 1 else body.args[0]
+                return inner.args[1], back(w_), back(body.args[1]), hvname
+    return None
 
 
 def _column_normal_form(v):
@@ -273,16 +310,36 @@ def _curves(ck: Checker, prog: Program, cls):
         else:
             ck.violation("C11.R2", fq, norm_key(stores[0], 110),
                          f"per-frequency value is {got}; expected {want}", loc=m.loc(stores[0]))
-    # mean_curve_by_azimuth / peak by azimuth delegate to each azimuth in order
+    # mean_curve_by_azimuth / peak by azimuth delegate to each azimuth in order: by value, as sequences over self.hvsrs
+    from ..pathtable import PathTable, seq_form, SEQ, ELT
+    HV = sp.Symbol("self.hvsrs", real=True)
+    D = sp.Symbol("distribution", real=True)
+    F = sp.Function
+
+    def hook(call, T):
+        if isinstance(call.func, ast.Attribute) and call.func.attr in ("mean_curve", "mean_curve_peak") and not (isinstance(call.func.value, ast.Name) and call.func.value.id == "self"):
+            d = kwarg(call, "distribution") or (call.args[0] if call.args else None)
+            return F(call.func.attr)(T.tr(call.func.value), T.tr(d) if d is not None else F("default")(sp.Symbol("'lognormal'")))
+        return None
     for name, acc in (("mean_curve_by_azimuth", "mean_curve"), ("mean_curve_peak_by_azimuth", "mean_curve_peak")):
         m = cls.methods.get(name)
         if m is None:
             continue
-        loops = [st for st in m.node.body if isinstance(st, ast.For)]
-        good = len(loops) == 1 and unparse(loops[0].iter) == "enumerate(self.hvsrs)" \
-            and any(call_name(c) == acc and kwarg(c, "distribution") is not None and unparse(kwarg(c, "distribution")) == "distribution"
-                    for c in calls_in(loops[0]))
-        if good:
-            ck.ok("C11.R2", m.qualname, f"row i = hvsrs[i].{acc}(distribution)", nontrivial=False)
+        leaves = [l for l in PathTable(prog, m.module, call_hook=hook, unroll=True, map_loops=True).leaves(m.node.body) if l.exit == "return"]
+        if len(leaves) != 1 or leaves[0].value is None:
+            raise AnalysisError(f"{m.qualname}: expected one returning path")
+        got = seq_form(leaves[0].value)
+        call = F(acc)(ELT, D)
+        if acc == "mean_curve":
+            want = [SEQ(call, HV)]
         else:
-            ck.violation("C11.R2", m.qualname, f"per-azimuth {acc}", f"{name} does not evaluate {acc}(distribution) of every azimuth in order", loc=m.loc())
+            gi = F("getitem")
+            want = [sp.Tuple(SEQ(gi(call, sp.Integer(0)), HV), SEQ(gi(call, sp.Integer(1)), HV))]
+        if got in want:
+            ck.ok("C11.R2", m.qualname, f"row i = hvsrs[i].{acc}(distribution)", nontrivial=False, detail=str(got)[:120])
+        else:
+            known = {"SEQ", acc, "getitem", "item"}
+            foreign = sorted({getattr(a_.func, "__name__", "") for a_ in sp.preorder_traversal(got) if isinstance(a_, sp.core.function.AppliedUndef)} - known)
+            if foreign and not any(getattr(getattr(a_, "func", None), "__name__", "") == "SEQ" for a_ in sp.preorder_traversal(got)):
+                raise AnalysisError(f"{m.qualname}: the per-azimuth values are built with constructs this rule does not interpret ({foreign})")
+            ck.violation("C11.R2", m.qualname, f"per-azimuth {acc}", f"{name} does not evaluate {acc}(distribution) of every azimuth in order (returns {str(got)[:160]})", loc=m.loc())
